@@ -94,12 +94,21 @@ def lexer_equivalence(run, syn, helper, n_max, budget_s):
                     e = z3.If(c == j, z3.IntVal(joint[j][1][k]), e)
                 out.append(e)
             return out
-        wa = whole_token(s, lx, "a", cls_vars(0), sn)
+        # source side: pattern index (a regex token may stand for several keyword spellings: any of its alphabet ids is fine)
+        wa_p = whole_token(s, lx, "a", cls_vars(0), [pi for pi in range(len(lx.patterns))])
         wb = whole_token(s, rl, "b", cls_vars(1), rn)
+        ok_pairs = [z3.And(wa_p == -1, wb == -1)]
+        for pi, pat in enumerate(lx.patterns):
+            if pat.skip:
+                ok_pairs.append(z3.And(wa_p == pi, wb == -4))
+            else:
+                ids = syn.src_term_ids[pat.name]
+                ok_pairs.append(z3.And(wa_p == pi, z3.Or([wb == i for i in ids])))
+        agree = z3.Or(ok_pairs)
         # text that both lexers skip entirely (however they split it among their skip patterns) is not a difference
         ska = whole_token(s, lx_skip, "sa", cls_vars(2), [0])
         skb = whole_token(s, rl_skip, "sb", cls_vars(3), [0])
-        s.add(wa != wb, z3.Not(z3.And(ska == 0, skb == 0)))
+        s.add(z3.Not(agree), z3.Not(z3.And(ska == 0, skb == 0)))
         enc = time.time() - t0
         if os.environ.get("VERIF_DUMP_SMT"):
             with open(os.path.join(os.environ["VERIF_DUMP_SMT"], f"C08-lexer-n{n}.smt2"), "w") as f:
@@ -147,7 +156,10 @@ def confront_lex(run, syn, helper, lx, rl, spec_path, text):
     reft, rerr = rl.tokenize(text)
     src_desc = ("LEXERR " if err else "") + " ".join(f"{syn.alphabet[source_names(syn, lx)[p]]}={t!r}" for p, t in mine)
     ref_desc = ("LEXERR " if rerr else "") + " ".join(f"{syn.alphabet[ref_names(syn, rl)[p]]}={t!r}" for p, t in reft)
-    if src_desc == ref_desc:
+    rn_ = ref_names(syn, rl)
+    same = (err == rerr) and len(mine) == len(reft) and all(
+        t1 == t2 and rn_[p2] in syn.src_term_ids[lx.patterns[p1].name] for (p1, t1), (p2, t2) in zip(mine, reft))
+    if same:
         run.inconc(f"lexer:{text!r}", f"solver witness {text!r} does not reproduce on the concrete lexers", mandatory=True)
         return
     parse_real = helper.call("parse", [text])[0]
